@@ -746,6 +746,11 @@ def e2e_campaign(ctx, n):
         if feed == "1" and bw * bh > 64:
             feed = "64"
         lines.append(f"pjpeg {rng.randrange(1, 10 ** 6)} {bw} {bh} {script} {ri} {tables} {style} {resets} {pad} {feed}")
+    # an end-of-band run that crosses 32767 blocks with nothing to end it early (no restart interval, no
+    # reset point, first passes of a progressive script): always one per script kind, not left to the draw
+    # (seeded: c17-eobrun-saturation-off-by-one needs >= 32768 consecutive empty blocks)
+    for script in ["A", "B"]:
+        lines.append(f"pjpeg {rng.randrange(1, 10 ** 6)} {rng.randrange(182, 200)} {rng.randrange(182, 200)} {script} 0 c e 0 d w")
     # chroma subsampling and grey: sampling factors 1 or 2 per component and direction, sizes in pixels that
     # are / are not multiples of the MCU (padding blocks at the right and bottom edge, several groups),
     # scans interleaved or not, restart intervals, extra zero runs, padding bits, progressive scripts
